@@ -2,6 +2,8 @@ pub mod c01;
 pub mod c03;
 pub mod c04;
 pub mod c13;
+pub mod c14;
+pub mod c16;
 pub mod selftest;
 
 use crate::engine::{Family, Tier};
@@ -13,6 +15,8 @@ pub fn run(id: &str, tier: Tier, hash_out: Option<String>) -> i32 {
         "C03" => c03::run(tier, hash_out),
         "C04" => c04::run(tier),
         "C13" => c13::run(tier),
+        "C14" => c14::run(tier),
+        "C16" => c16::run(tier),
         _ => {
             eprintln!("unknown property {}", id);
             2
@@ -26,6 +30,8 @@ pub fn replay_families(id: &str, tier: Tier) -> Option<Vec<Family<'static>>> {
         "C03" => Some(c03::replay_families(tier)),
         "C04" => Some(c04::replay_families(tier)),
         "C13" => Some(c13::replay_families(tier)),
+        "C14" => Some(c14::replay_families(tier)),
+        "C16" => Some(c16::replay_families(tier)),
         _ => None,
     }
 }
